@@ -170,6 +170,8 @@ struct Outcome {
     producer_trace: Vec<&'static str>,
     /// the stream had frames before the case started (thread kind)
     pre_existing: bool,
+    /// the producer ran to its end (terminal artefact seen) and every actor finished: `truth` is the whole stream
+    complete: bool,
 }
 
 fn req(method: &str, uri: &str, body: Option<serde_json::Value>) -> axum::http::Request<axum::body::Body> {
@@ -433,6 +435,7 @@ fn run_case(env: &mut Env, c: &Case) -> Outcome {
     let sched = Sched::new();
     sched.install();
     let (tx, rx) = std::sync::mpsc::channel::<(usize, tokio::runtime::Runtime, axum::response::Response)>();
+    let producer_done = Arc::new(std::sync::atomic::AtomicBool::new(false));
 
     // ---- producer actor
     {
@@ -441,10 +444,12 @@ fn run_case(env: &mut Env, c: &Case) -> Outcome {
         let load = c.load.clone();
         let kind = c.kind;
         let data = data.clone();
+        let producer_done = producer_done.clone();
         sched.spawn(0, move || {
             let rt = new_rt();
-            rt.block_on(async move {
-                let deadline = Instant::now() + Duration::from_secs(20);
+            let finished = rt.block_on(async move {
+                // generous: only reached when the machine is overloaded; the case is then inconclusive, never an alarm
+                let deadline = Instant::now() + Duration::from_secs(120);
                 match kind {
                     Kind::Session => {
                         let id = sid.lock().unwrap().clone().unwrap();
@@ -459,6 +464,7 @@ fn run_case(env: &mut Env, c: &Case) -> Outcome {
                         while !snap.exists() && Instant::now() < deadline {
                             tokio::time::sleep(Duration::from_millis(1)).await;
                         }
+                        snap.exists()
                     }
                     Kind::Task => {
                         let k = match load {
@@ -479,6 +485,7 @@ fn run_case(env: &mut Env, c: &Case) -> Outcome {
                         while !snap.exists() && Instant::now() < deadline {
                             tokio::time::sleep(Duration::from_millis(1)).await;
                         }
+                        snap.exists()
                     }
                     Kind::Thread => {
                         let id = sid.lock().unwrap().clone().unwrap();
@@ -491,15 +498,21 @@ fn run_case(env: &mut Env, c: &Case) -> Outcome {
                             assert_eq!(st, 202);
                         }
                         loop {
-                            let ended = stream_frames(&data, &id, true).iter().filter(|(_, t)| t == "continuity_run_ended").count() as u64;
-                            if ended >= m || Instant::now() >= deadline {
-                                break;
+                            let frames = stream_frames(&data, &id, true);
+                            let posted = frames.iter().filter(|(_, t)| t == "continuity_message_appended").count() as u64;
+                            let ended = frames.iter().filter(|(_, t)| t == "continuity_run_ended").count() as u64;
+                            if ended >= posted && posted > 0 {
+                                break true;
+                            }
+                            if Instant::now() >= deadline {
+                                break false;
                             }
                             tokio::time::sleep(Duration::from_millis(1)).await;
                         }
                     }
                 }
             });
+            producer_done.store(finished, std::sync::atomic::Ordering::SeqCst);
         });
     }
     // ---- subscriber actors
@@ -541,6 +554,7 @@ fn run_case(env: &mut Env, c: &Case) -> Outcome {
     out.in_flight = trace.in_flight_timeouts;
     out.deadlock = trace.deadlock;
     out.panicked = trace.panicked.clone();
+    out.complete = !trace.deadlock && producer_done.load(std::sync::atomic::Ordering::SeqCst);
 
     let id = stream_id.lock().unwrap().clone().unwrap_or_default();
     out.truth = stream_frames(&data, &id, c.kind == Kind::Thread).into_iter().map(|(s, _)| s).collect();
@@ -569,6 +583,15 @@ fn oracle(c: &Case, o: &Outcome) -> Option<(String, String)> {
     for (i, (st, seqs)) in o.delivered.iter().enumerate() {
         if *st != 200 {
             // a subscriber that attached before the stream exists may be refused (task id unknown); that is not a delivery
+            continue;
+        }
+        if !o.complete {
+            // the producer was cut short (overloaded machine / scheduler gave up): `truth` may be a strict prefix of the
+            // stream, so only what holds at EVERY moment is checked: the body is 0..k-1, once each, ascending
+            let k = seqs.len() as u64;
+            if *seqs != (0..k).collect::<Vec<u64>>() {
+                return Some((format!("{} stream, subscriber {}: body {:?} is not a gap-free ascending prefix from seq 0", c.kind.name(), i + 1, seqs), "body_not_a_prefix".into()));
+            }
             continue;
         }
         if *seqs != want {
@@ -638,7 +661,7 @@ fn model_events(o: &Outcome) -> Vec<Ev> {
 fn events_wellformed(o: &Outcome) -> bool {
     let pubs = o.events.iter().filter(|e| **e == Ev::Pub).count();
     let recs = o.events.iter().filter(|e| **e == Ev::Rec).count();
-    pubs == recs && pubs <= o.truth.len() && (pubs == o.truth.len() || o.pre_existing) && o.in_flight == 0 && !o.deadlock
+    pubs == recs && pubs <= o.truth.len() && (pubs == o.truth.len() || o.pre_existing) && o.in_flight == 0 && !o.deadlock && o.complete
 }
 
 fn corpus(repo_root: &Path) -> Vec<Case> {
@@ -788,6 +811,9 @@ fn main() {
         res.bump(&format!("frames={}", match o.truth.len() { 0..=3 => "1-3", 4..=6 => "4-6", 7..=12 => "7-12", _ => "13+" }));
         if o.in_flight > 0 || o.deadlock {
             res.bump("scheduler_in_flight_or_deadlock");
+        }
+        if !o.complete {
+            res.bump("producer_incomplete(prefix oracle only)");
         }
         let attached_inside = {
             let first_p = o.events.iter().position(|e| matches!(e, Ev::Pub | Ev::Rec));
